@@ -1016,6 +1016,134 @@ pub fn deep_histories() -> Vec<Vec<Tok>> {
     ]
 }
 
+/// Payload shapes: event types whose fields are all optional (so that `{}` is a valid payload) and one
+/// with a single required field; every shape is stored, the process is killed at a kill point (with no
+/// flush, a flush in the middle, a flush at the end), restarted, read, stored again under other
+/// contexts, killed and read again. Events are identified by their context id.
+/// Returns (observations, violations).
+pub fn payload_shapes(tier: &str, dir: &Path) -> Result<(usize, Vec<String>), String> {
+    let shapes: Vec<(&str, &str)> = vec![
+        ("z", "{}"),
+        ("z", "{\"note\":null}"),
+        ("z", "{\"note\":\"x\"}"),
+        ("z", "{\"m\":0}"),
+        ("z", "{\"note\":\"\",\"m\":-1}"),
+        ("y", "{\"k\":5}"),
+        ("y", "{\"k\":6,\"note\":null}"),
+        ("z", "{}"),
+    ];
+    let cfgs: Vec<SysConfig> = configs(tier).into_iter().filter(|c| !(c.wal_buffered && !c.wal_flush_each_write)).collect();
+    let cfgs: Vec<SysConfig> = if tier == "quick" { cfgs } else { cfgs.into_iter().step_by(4).collect() };
+    // flush variants: none; a manual flush after the last store; usize::MAX = the memtable holds four events
+    // and rotates on its own (then nothing is stored in the second lifetime: a manual flush of a partly
+    // filled memtable, or any flush after a restart, runs into the listed finding KF-P1-wal-unlinked)
+    let flush_ats: Vec<Option<usize>> = vec![None, Some(shapes.len()), Some(usize::MAX)];
+    let mut work = Vec::new();
+    for (ci, c) in cfgs.iter().enumerate() {
+        for f in &flush_ats {
+            // the memtable must not rotate on its own in the no-flush variant
+            let c2 = if *f == Some(usize::MAX) { SysConfig { fill_factor: 2, event_per_zone: 2, ..c.clone() } } else { SysConfig { fill_factor: c.fill_factor.max(20), ..c.clone() } };
+            work.push((ci, c2, *f));
+        }
+    }
+    let results = par_map(&work, threads(), |wi, (ci, cfg, flush_at)| -> Result<(usize, Vec<String>), String> {
+        let d = dir.join(format!("ps{wi}"));
+        let reads = |prefixes: &[&str]| -> Vec<String> {
+            let mut q = vec!["QUERY z".to_string(), "QUERY y".to_string()];
+            for p in prefixes {
+                for (i, (t, _)) in shapes.iter().enumerate() {
+                    q.push(format!("REPLAY {t} FOR {p}{i}"));
+                }
+            }
+            q
+        };
+        let stores = |p: &str| -> Vec<Op> {
+            let mut v = Vec::new();
+            for (i, (t, pl)) in shapes.iter().enumerate() {
+                if *flush_at == Some(i) {
+                    v.push(Op::FlushSeq);
+                }
+                v.push(Op::Cmd { text: format!("STORE {t} FOR {p}{i} PAYLOAD {pl}") });
+            }
+            if *flush_at == Some(shapes.len()) {
+                v.push(Op::FlushSeq);
+            }
+            v
+        };
+        let mut l1 = vec![Op::Cmd { text: "DEFINE z FIELDS { note: \"string | null\", m: \"int | null\" }".into() }, Op::Cmd { text: "DEFINE y FIELDS { k: \"int\", note: \"string | null\" }".into() }];
+        l1.extend(stores("p"));
+        l1.push(Op::KillPoint);
+        let mut l2 = vec![Op::Observe { queries: reads(&["p"]) }];
+        if *flush_at != Some(usize::MAX) {
+            l2.extend(stores("q"));
+        }
+        l2.push(Op::KillPoint);
+        let l3 = vec![Op::Observe { queries: reads(&["p", "q"]) }];
+        let lives: Vec<LifeSpec> = [l1, l2, l3].into_iter().map(|ops| LifeSpec { ops, snap: SnapMode::Off, fsmon: false }).collect();
+        let res = run_lifetimes(&d, cfg, 31, &lives, false)?;
+        let mut viol = Vec::new();
+        let mut obs = 0usize;
+        // acknowledged contexts per type, in life order
+        let mut acked: Vec<(String, String, String)> = Vec::new(); // (type, ctx, payload)
+        for (li, r) in res.iter().enumerate() {
+            if let Some(e) = &r.error {
+                return Err(format!("payload shapes cfg#{ci} flush {flush_at:?} life {li}: {e}"));
+            }
+            for (oi, op) in lives[li].ops.iter().enumerate() {
+                let st = &r.steps[oi];
+                match op {
+                    Op::Cmd { text } if text.starts_with("STORE ") => {
+                        if st.replies.first().map(|x| x.status) == Some(200) {
+                            let mut it = text.split(' ');
+                            let t = it.nth(1).unwrap_or("").to_string();
+                            let c = it.nth(1).unwrap_or("").to_string();
+                            acked.push((t, c, text.splitn(6, ' ').nth(5).unwrap_or("").to_string()));
+                        }
+                    }
+                    Op::Observe { queries } => {
+                        obs += 1;
+                        let tag = format!("cfg#{ci} (wal buffered={} flush_each_write={}) flush before store #{flush_at:?}, life {li}", cfg.wal_buffered, cfg.wal_flush_each_write);
+                        for (qi, q) in queries.iter().enumerate() {
+                            let rep = &st.replies[qi];
+                            if let Some(t) = q.strip_prefix("QUERY ") {
+                                let mut got: Vec<String> = rep.rows.iter().map(|r| r.get("context_id").and_then(|v| v.as_str()).unwrap_or("<none>").to_string()).collect();
+                                got.sort();
+                                let mut want: Vec<String> = acked.iter().filter(|a| a.0 == t).map(|a| a.1.clone()).collect();
+                                want.sort();
+                                if got != want {
+                                    let missing: Vec<&String> = want.iter().filter(|c| !got.contains(c)).collect();
+                                    let payloads: Vec<&String> = acked.iter().filter(|a| missing.contains(&&a.1)).map(|a| &a.2).collect();
+                                    viol.push(format!("{tag}: {q} returns contexts {got:?}, applied {want:?} (missing payloads {payloads:?})"));
+                                }
+                            } else if let Some(rest) = q.strip_prefix("REPLAY ") {
+                                let mut it = rest.split(' ');
+                                let t = it.next().unwrap_or("");
+                                let c = it.nth(1).unwrap_or("");
+                                let want = acked.iter().filter(|a| a.0 == t && a.1 == c).count();
+                                if rep.rows.len() != want {
+                                    let pl = acked.iter().find(|a| a.1 == c).map(|a| a.2.clone()).unwrap_or_default();
+                                    viol.push(format!("{tag}: {q} returns {} rows, applied {want} (payload {pl})", rep.rows.len()));
+                                }
+                            }
+                        }
+                    }
+                    _ => {}
+                }
+            }
+        }
+        let _ = std::fs::remove_dir_all(&d);
+        Ok((obs, viol))
+    });
+    let mut obs = 0;
+    let mut viol = Vec::new();
+    for r in results {
+        let (o, v) = r?;
+        obs += o;
+        viol.extend(v);
+    }
+    Ok((obs, viol))
+}
+
 pub fn check(tier: &str) -> i32 {
     let t0 = std::time::Instant::now();
     use Tok::*;
@@ -1139,6 +1267,33 @@ pub fn check(tier: &str) -> i32 {
         println!("VIOLATION property=C01 replay={path}");
         eprintln!("  {:?} life {} op {} crash {:?}: {:?} / {:?}", f.history, f.life, f.op, f.crash, f.violation, f.discs.first());
     }
+    // payload shapes (empty payloads, nulls only, one required field) across kill points
+    let (shape_obs, shape_viol) = match payload_shapes(tier, &scratch.dir) {
+        Ok(x) => x,
+        Err(e) => {
+            eprintln!("MACHINERY: {e}");
+            return 2;
+        }
+    };
+    {
+        let mut by_tag: BTreeMap<String, usize> = BTreeMap::new();
+        for m in &shape_viol {
+            *by_tag.entry(m.split(": ").next().unwrap_or("").to_string()).or_insert(0) += 1;
+        }
+        for (t, n) in &by_tag {
+            eprintln!("  payload shapes: {n} failed reads in {t}");
+        }
+        let mut shown = BTreeSet::new();
+        for m in &shape_viol {
+            let key: String = m.chars().filter(|c| !c.is_ascii_digit()).take(120).collect();
+            if !shown.insert(key) || shown.len() > 4 {
+                continue;
+            }
+            let path = write_replay("C01", &json!({"property": "C01", "part": "payload shapes", "what": m}));
+            println!("VIOLATION property=C01 replay={path}");
+            eprintln!("  {m}");
+        }
+    }
     let exhaustive = !capped;
     let samples: Vec<serde_json::Value> = work.iter().step_by((work.len() / 6).max(1)).take(6).map(|(c, h)| json!({"config": [c.shards, c.fill_factor, c.event_per_zone, c.segments_per_merge], "history": h})).collect();
     write_evidence(&Evidence {
@@ -1171,6 +1326,7 @@ pub fn check(tier: &str) -> i32 {
             "determinism_canary_executions": canary.len() * 2,
             "unreproduced_observations": unreproduced.len(),
             "model_guided": {"model_depth": mdepth, "distinct_model_states": model_states, "model_transitions": model_transitions, "traces_beyond_the_exhaustive_depth": model_traces_total, "traces_replayed_on_the_implementation": mtraces.len(), "cap": mcap},
+            "payload_shapes": {"observations": shape_obs, "rule": "8 payload shapes over two event types (all fields optional: {}, nulls only, one or two values; one required field) x strong-clause configurations x flush {none, manual after the last store, automatic rotation of a four-event memtable}: store, kill point, restart, read by context (QUERY per type, REPLAY per context), store again, kill point, restart, read"},
             "buffered_wal_recovery_runs": st.buffered_recoveries,
             "buffered_wal_crash_points_with_an_allowed_suffix_loss": st.buffered_suffix_losses,
         }),
@@ -1184,9 +1340,9 @@ pub fn check(tier: &str) -> i32 {
             "model-guided part: BFS over the protocol model (event identities abstracted into counts) gives the shortest trace to every canonical model state; traces longer than the exhaustive depth are replayed on the implementation (longest first, up to the stated cap) with every crash point of their last lifetime".into(),
         ],
         wall_s: t0.elapsed().as_secs_f64(),
-        violations: violations.len() as i64,
+        violations: (violations.len() + shape_viol.len()) as i64,
     });
-    if violations.is_empty() { 0 } else { 1 }
+    if violations.is_empty() && shape_viol.is_empty() { 0 } else { 1 }
 }
 
 
